@@ -338,8 +338,10 @@ def st_amp_settings(draw, band):
         bk['min_n_cycles'] = draw(st.integers(0, 5))
     if draw(st.integers(0, 7)) == 0:
         bk['min_burst_duration'] = draw(_f(0.5, 4.0)) / band['f_range'][0]
-    if draw(st.integers(0, 5)) == 0:
-        bk['filter_kwargs'] = {'n_cycles': draw(st.sampled_from([2, 3, 4]))}
+    if draw(st.integers(0, 3)) == 0:
+        # forwarded to the dual-threshold detector: filter length, but also its other documented keywords
+        bk['filter_kwargs'] = draw(st.sampled_from([{'n_cycles': 2}, {'n_cycles': 3}, {'n_cycles': 4}, {'n_cycles': 4}, {'magnitude_type': 'power'},
+                                                    {'avg_type': 'mean'}, {'filter_type': 'fir'}, {'n_cycles': 2, 'magnitude_type': 'power'}]))
     use_bk = bool(bk) or draw(st.booleans())
     use_th = bool(th) or draw(st.integers(0, 4)) > 0
     return (bk if use_bk else None), (th if use_th else None), routing
